@@ -1056,6 +1056,7 @@ def m_range_next(eng, st, call):
 
 
 STD_MODELS[:0] = [
+    (R(r'^(core::hint::|std::hint::)?must_use::<'), m_identity),
     (R(r'RangeInclusive::<(u8|u16|u32|u64|usize)>::new$'), m_range_new),
     (R(r'^<(std::ops::|core::ops::)?RangeInclusive<\w+> as Iterator>::rev$'), m_range_rev),
     (R(r'^<(Rev<)?(std::ops::|core::ops::)?RangeInclusive<\w+>>? as Iterator>::next$'), m_range_next),
@@ -1188,4 +1189,202 @@ STD_MODELS += [
     (R(r' as (std::iter::)?Iterator>::(filter|map|filter_map)::<'), m_iter_filter),
     (R(r' as (std::iter::)?Iterator>::(enumerate|rev|cloned|copied|count|skip|take|last)$'), m_iter_simple),
     (R(r' as (std::iter::)?Iterator>::collect::<'), m_iter_simple),
+]
+
+
+# ---- containers: Vec / VecDeque (SeqV), HashMap / HashSet / BTreeMap / BTreeSet / LruCache (MapV) ---------------------------
+
+def _cont(eng, st, a, cls):
+    """(ref to the container, container) for a `&self`/`&mut self` argument"""
+    if not isinstance(a, Ref):
+        raise MirError('container receiver is not a reference')
+    r, v = base_ref(eng, st, a)
+    if not isinstance(v, cls):
+        return r, None
+    return r, v
+
+
+def m_new_container(eng, st, call):
+    t = simple_type_name(call.dest_ty or '')
+    if t in ('Vec', 'VecDeque'):
+        return [(st, SeqV([], call.dest_ty))]
+    if t in ('HashMap', 'BTreeMap'):
+        return [(st, MapV([], call.dest_ty))]
+    if t in ('HashSet', 'BTreeSet'):
+        return [(st, MapV([], call.dest_ty, True))]
+    if t == 'String':
+        return [(st, StrV(text=''))]
+    return None
+
+
+def m_seq(eng, st, call):
+    name = method_name(call.fn)
+    r, v = _cont(eng, st, call.args[0], SeqV)
+    if v is None:
+        return None
+    if name in ('push', 'push_back'):
+        v.items.append(call.args[1]); return [(st, UNIT())]
+    if name == 'push_front':
+        v.items.insert(0, call.args[1]); return [(st, UNIT())]
+    if name == 'pop_front':
+        return [(st, SOME(v.items.pop(0)) if v.items else NONE())]
+    if name in ('pop', 'pop_back'):
+        return [(st, SOME(v.items.pop()) if v.items else NONE())]
+    if name == 'len':
+        return [(st, z3.BitVecVal(len(v.items), 64))]
+    if name == 'is_empty':
+        return [(st, z3.BoolVal(len(v.items) == 0))]
+    if name in ('iter', 'iter_mut'):
+        return [(st, IterV([Ref(r.loc, r.path + (('i', k),), name == 'iter_mut') for k in range(len(v.items))], 'ref'))]
+    if name == 'split_off':
+        k = eng.concrete_int(st, call.args[1])
+        tail = v.items[k:]
+        del v.items[k:]
+        return [(st, SeqV(tail, v.ty))]
+    if name == 'clear':
+        v.items.clear(); return [(st, UNIT())]
+    if name in ('first', 'front'):
+        return [(st, SOME(Ref(r.loc, r.path + (('i', 0),))) if v.items else NONE())]
+    if name in ('last', 'back'):
+        return [(st, SOME(Ref(r.loc, r.path + (('i', len(v.items) - 1),))) if v.items else NONE())]
+    if name == 'get':
+        k = eng.concrete_int(st, call.args[1])
+        return [(st, SOME(Ref(r.loc, r.path + (('i', k),))) if k < len(v.items) else NONE())]
+    if name == 'to_vec':
+        return [(st, SeqV([copy_val(x) for x in v.items], 'Vec'))]
+    if name in ('as_slice', 'as_mut_slice'):
+        return [(st, r)]
+    if name == 'contains':
+        x = deref_all(eng, st, call.args[1])
+        return [(st, z3.Or([val_eq(eng, y, x) for y in v.items]) if v.items else z3.BoolVal(False))]
+    if name == 'truncate':
+        k = eng.concrete_int(st, call.args[1]); del v.items[k:]; return [(st, UNIT())]
+    if name == 'remove':
+        k = eng.concrete_int(st, call.args[1])
+        if k >= len(v.items):
+            from .engine import Panic
+            return [(st, Panic('remove index out of bounds'))]
+        return [(st, v.items.pop(k))]
+    return None
+
+
+def m_seq_index(eng, st, call):
+    """<Vec<T>/VecDeque<T>/[T] as Index<usize>>::index -> &T  (panics when out of bounds)"""
+    r, v = _cont(eng, st, call.args[0], SeqV)
+    if v is None:
+        return None
+    from .engine import Panic
+    idx = call.args[1]
+    if isinstance(idx, Agg):          # range index: not modelled here
+        return None
+    k = eng.concrete_int(st, idx)
+    if k >= len(v.items):
+        return [(st, Panic(f'index out of bounds: the len is {len(v.items)} but the index is {k} in {call.site}'))]
+    return [(st, Ref(r.loc, r.path + (('i', k),), r.mut))]
+
+
+def m_mapops(eng, st, call):
+    name = method_name(call.fn)
+    r, v = _cont(eng, st, call.args[0], MapV)
+    if v is None:
+        return None
+    key = deref_all(eng, st, call.args[1]) if len(call.args) > 1 else None
+    if name in ('get', 'get_mut', 'peek', 'peek_mut'):
+        i = map_find(eng, st, v, key)
+        return [(st, NONE() if i is None else SOME(Ref(r.loc, r.path + (('e', i),), 'mut' in name)))]
+    if name in ('contains', 'contains_key'):
+        return [(st, z3.BoolVal(map_find(eng, st, v, key) is not None))]
+    if name in ('insert', 'put', 'push'):
+        if v.is_set:
+            i = map_find(eng, st, v, call.args[1])
+            if i is None:
+                v.entries.append([call.args[1], UNIT()])
+            return [(st, z3.BoolVal(i is None))]
+        old = map_insert(eng, st, v, call.args[1], call.args[2])
+        return [(st, NONE() if old is None else SOME(old))]
+    if name in ('remove', 'pop'):
+        i = map_find(eng, st, v, key)
+        if i is None:
+            return [(st, z3.BoolVal(False) if v.is_set else NONE())]
+        k, x = v.entries.pop(i)
+        return [(st, z3.BoolVal(True) if v.is_set else SOME(x))]
+    if name == 'len':
+        return [(st, z3.BitVecVal(len(v.entries), 64))]
+    if name == 'is_empty':
+        return [(st, z3.BoolVal(len(v.entries) == 0))]
+    if name == 'clear':
+        v.entries.clear(); return [(st, UNIT())]
+    if name == 'entry':
+        return [(st, Agg('struct', 'Entry', None, [r, call.args[1]]))]
+    if name in ('values', 'values_mut'):
+        return [(st, IterV([Ref(r.loc, r.path + (('e', k),), 'mut' in name) for k in range(len(v.entries))], 'ref'))]
+    if name == 'keys':
+        return [(st, IterV([Ref(r.loc, r.path + (('k', k),)) for k in range(len(v.entries))], 'ref'))]
+    if name in ('iter', 'iter_mut'):
+        if v.is_set:
+            return [(st, IterV([Ref(r.loc, r.path + (('k', k),)) for k in range(len(v.entries))], 'ref'))]
+        return [(st, IterV([Agg('tuple', None, None, [Ref(r.loc, r.path + (('k', k),)), Ref(r.loc, r.path + (('e', k),), 'mut' in name)]) for k in range(len(v.entries))], 'ref'))]
+    if name == 'retain':
+        clo = call.args[1]
+        # evaluate the predicate element by element (forking), keep those for which it holds
+        states = [(st, [])]
+        n = len(v.entries)
+        for k in range(n):
+            nxt = []
+            for s, keep in states:
+                args = [Ref(r.loc, r.path + (('k', k),))] if v.is_set else [Ref(r.loc, r.path + (('k', k),)), Ref(r.loc, r.path + (('e', k),), True)]
+                for s2, res in call_closure(eng, s, clo, args):
+                    for s3, b in bool_cases(eng, s2, res):
+                        nxt.append((s3, keep + [k] if b else keep))
+            states = nxt
+        out = []
+        for s, keep in states:
+            m = eng.read(s, r.loc, r.path)
+            m.entries = [m.entries[k] for k in keep]
+            out.append((s, UNIT()))
+        return out
+    return None
+
+
+def m_entry(eng, st, call):
+    name = method_name(call.fn)
+    e = call.args[0]
+    if not (isinstance(e, Agg) and e.ty == 'Entry'):
+        return None
+    r, key = e.fields
+    m = eng.read(st, r.loc, r.path)
+    i = map_find(eng, st, m, key)
+    if i is None:
+        if name == 'or_default':
+            dv = default_of(type_args_of_entry(call.fn))
+        elif name == 'or_insert':
+            dv = call.args[1]
+        elif name == 'or_insert_with':
+            outs = call_closure(eng, st, call.args[1], [])
+            if len(outs) != 1:
+                raise MirError('or_insert_with closure forks')
+            dv = outs[0][1]
+        else:
+            return None
+        m.entries.append([key, dv])
+        i = len(m.entries) - 1
+    return [(st, Ref(r.loc, r.path + (('e', i),), True))]
+
+
+def type_args_of_entry(fn):
+    m = re.search(r"Entry::<'_, (.*)>::\w+$", fn, re.S)
+    if m:
+        parts = split_top(m.group(1))
+        if len(parts) >= 2:
+            return parts[1]
+    return '?'
+
+
+STD_MODELS += [
+    (R(r'^(std::vec::|alloc::vec::)?Vec::<.*>::new$|VecDeque::<.*>::new$|HashMap::<.*>::new$|HashSet::<.*>::new$|BTreeMap::<.*>::new$|BTreeSet::<.*>::new$|^String::new$|std::string::String::new$'), m_new_container),
+    (R(r' as (std::ops::)?Index(Mut)?<usize>>::index(_mut)?$'), m_seq_index),
+    (R(r'(Vec|VecDeque)::<.*>::(push|push_back|push_front|pop|pop_front|pop_back|len|is_empty|iter|iter_mut|split_off|clear|first|last|front|back|get|to_vec|as_slice|contains|truncate|remove)$'), m_seq),
+    (R(r'slice::<impl \[.*\]>::(len|is_empty|iter|iter_mut|first|last|get|to_vec|contains)$'), m_seq),
+    (R(r'(HashMap|BTreeMap|HashSet|BTreeSet|LruCache)::<.*>::(get|get_mut|peek|peek_mut|contains|contains_key|insert|put|push|remove|pop|len|is_empty|clear|entry|values|values_mut|keys|iter|iter_mut|retain)(::<.*>)?$'), m_mapops),
+    (R(r'Entry::<.*>::(or_default|or_insert|or_insert_with)(::<.*>)?$'), m_entry),
 ]
